@@ -22,15 +22,18 @@
     otherExpr                every other expression (`-x`, `(3)`, `f()`, `1 + 2`, …)
 
   RESULT.  `Except Reject Parsed`:
-    * `Reject.parserErr msg` — the function returned `Err(compile_error!(msg))`; the macro `panic!`s;
-    * `Reject.panics what`   — an `.expect(...)`, the `assert!(f.is_finite())` of `Literal::f64_suffixed`, or
-                               (only when the macro crate is built with overflow checks, `oc = true`)
-                               the `n * 1024 * …` of `max_memory` panicked;
-    * `.ok p` where some of `p.limit`, `p.ttl`, `p.maxMemory`, `p.frequencyWeight` may be
-      `Spliced.compileError e`: the parser stored `compile_error!(msg)` tokens in that field and carried on;
-      the macro splices them as the value, so compilation fails unless a LATER occurrence of the same
-      attribute overwrote the field.
-  All three are compile failures; `compiles` says so.
+    * `Reject.parserErr msg` — the function returned `Err(compile_error!(msg))`; the macro `panic!`s.  Since
+                               commit 82aef8c this includes every value parser that produced `compile_error!`
+                               tokens (`reject_invalid`): the tokens are returned as `Err` at once;
+    * `Reject.panics what`   — an `.expect(...)` or the `assert!(f.is_finite())` of `Literal::f64_suffixed`
+                               panicked;
+    * `.ok p`.  The fields `p.limit`, `p.ttl`, `p.maxMemory`, `p.frequencyWeight` have type `Spliced _`
+      (`TokenStream2` can hold `compile_error!` tokens, and in the parser BEFORE 82aef8c they did:
+      `Legacy.parse` below); the repaired parser never returns `Spliced.compileError` inside `.ok`
+      (`Lemmas/Attrs.lean: parse_ok_fields`).
+  All are compile failures; `compiles` says so.  Since commit 1b1b026 the `max_memory` arithmetic is
+  `checked_mul`, so nothing depends on the overflow-check setting of the macro crate any more; the old
+  behaviour (`oc`) survives in `Legacy` only.
 
   Core Lean only (linked into the driver).
 -/
@@ -128,7 +131,7 @@ inductive CE
   | limitRange | limitLit | limitSyntax
   | ttlLit | ttlSyntax
   | fwNonPositive | fwLit | fwSyntax
-  | mmNumber | mmFormat | mmLit | mmSyntax
+  | mmNumber | mmFormat | mmLit | mmSyntax | mmTooLarge
   deriving DecidableEq, Repr
 
 def CE.msg : CE → String
@@ -144,6 +147,7 @@ def CE.msg : CE → String
   | .mmFormat => "Invalid format for max_memory: expected \"100MB\", \"1GB\", \"500KB\", or number"
   | .mmLit => "Invalid literal for `max_memory`: expected string (\"100MB\") or integer"
   | .mmSyntax => "Invalid syntax for `max_memory`: expected `max_memory = \"100MB\"`"
+  | .mmTooLarge => "max_memory is too large"
 
 /-- a `TokenStream2` field: `None` / `Some(v)` tokens, or spliced `compile_error!` tokens -/
 inductive Spliced (α : Type)
@@ -301,31 +305,29 @@ def trimRev2 (a b : Char) : List Char → List Char
 /-- `s.trim_end_matches("ab")`: strips the suffix REPEATEDLY -/
 def trimEndMatches2 (a b : Char) (s : List Char) : List Char := (trimRev2 a b s.reverse).reverse
 
-/-- `n * 1024 * … * 1024` (`k` factors) in `usize`: panics on overflow when the macro crate is compiled
-    with overflow checks (`oc`, the dev profile), wraps otherwise (release profile) -/
-def mulUnit (oc : Bool) (n k : Nat) : Except String Nat :=
-  if n * 1024 ^ k < usizeBound then .ok (n * 1024 ^ k)
-  else if oc then .error "attempt to multiply with overflow"
-  else .ok (n * 1024 ^ k % usizeBound)
+/-- `n.checked_mul(1024usize.pow(k))` (`lib.rs:217-220,228-231,239-242`, commit 1b1b026): a product that
+    does not fit in `usize` is refused with `compile_error!("max_memory is too large")` -/
+def mulUnit (n k : Nat) : Spliced Nat :=
+  if n * 1024 ^ k < usizeBound then .ok (some (n * 1024 ^ k)) else .compileError .mmTooLarge
 
 /-- the `GB` / `MB` / `KB` branches: strip the unit (repeatedly), parse the rest, multiply -/
-def mmWithUnit (oc : Bool) (u : List Char) (a : Char) (k : Nat) : Except String (Spliced Nat) :=
+def mmWithUnit (u : List Char) (a : Char) (k : Nat) : Spliced Nat :=
   match parseUsize (trimEndMatches2 a 'B' u) with
-  | some n => (mulUnit oc n k).map (fun b => .ok (some b))
-  | none => .ok (.compileError .mmNumber)
+  | some n => mulUnit n k
+  | none => .compileError .mmNumber
 
-/-- `lib.rs:214-246` on the upper-cased string: units are tested in the order GB, MB, KB -/
-def parseMaxMemoryUpper (oc : Bool) (u : List Char) : Except String (Spliced Nat) :=
-  if endsWith2 'G' 'B' u then mmWithUnit oc u 'G' 3
-  else if endsWith2 'M' 'B' u then mmWithUnit oc u 'M' 2
-  else if endsWith2 'K' 'B' u then mmWithUnit oc u 'K' 1
+/-- `lib.rs:214-255` on the upper-cased string: units are tested in the order GB, MB, KB -/
+def parseMaxMemoryUpper (u : List Char) : Spliced Nat :=
+  if endsWith2 'G' 'B' u then mmWithUnit u 'G' 3
+  else if endsWith2 'M' 'B' u then mmWithUnit u 'M' 2
+  else if endsWith2 'K' 'B' u then mmWithUnit u 'K' 1
   else match parseUsize u with
-    | some n => .ok (.ok (some n))
-    | none => .ok (.compileError .mmFormat)
+    | some n => .ok (some n)
+    | none => .compileError .mmFormat
 
 /-- `val_str.to_uppercase()` first (see the note below) -/
-def parseMaxMemoryStr (oc : Bool) (s : List Char) : Except String (Spliced Nat) :=
-  parseMaxMemoryUpper oc (s.map Char.toUpper)
+def parseMaxMemoryStr (s : List Char) : Spliced Nat :=
+  parseMaxMemoryUpper (s.map Char.toUpper)
 
 /- Note on `to_uppercase()`: Rust's is the Unicode mapping, `Char.toUpper` the ASCII one.  The only
    non-ASCII characters whose upper case contains an ASCII character are `ı` (→ `I`), `ſ` (→ `S`) and the
@@ -333,9 +335,9 @@ def parseMaxMemoryStr (oc : Bool) (s : List Char) : Except String (Spliced Nat) 
    `B`; a string containing any non-ASCII character is therefore rejected by both with the same message
    (the unit test only looks at the last two characters, the number test refuses every non-digit). -/
 
-/-- `parse_max_memory_attribute` (`lib.rs:206-264`) -/
-def parseMaxMemory (oc : Bool) : AttrVal → Except String (Spliced Nat)
-  | .strLit s => parseMaxMemoryStr oc s.toList
+/-- `parse_max_memory_attribute` (`lib.rs:206-273`); `.error` = the `.expect` panicked -/
+def parseMaxMemory : AttrVal → Except String (Spliced Nat)
+  | .strLit s => .ok (parseMaxMemoryStr s.toList)
   | .intLit neg v _ =>
     if !neg && v < usizeBound then .ok (.ok (some v)) else .error "max_memory must be a positive integer (bytes)"
   | .floatLit .. | .boolLit _ | .otherLit => .ok (.compileError .mmLit)
@@ -377,38 +379,47 @@ def liftPanic {α : Type} (r : Except String α) (f : α → Parsed) : Result :=
   | .ok a => .ok (f a)
   | .error m => .error (.panics m)
 
-/-- one iteration of the `for nv in parsed_args` loop of `parse_sync_attributes` (`lib.rs:519-588`) /
-    `parse_async_attributes` (`lib.rs:466-502`), `parse_common_attribute` (`lib.rs:414-452`) inlined.
-    Every recognised attribute OVERWRITES its field (so a later occurrence wins, and a later valid value
-    erases earlier `compile_error!` tokens); `Err` and panics abort at once. -/
-def stepAttr (k : Kind) (oc : Bool) (st : Parsed) (n : String) (v : AttrVal) : Result :=
-  if n = "limit" then .ok { st with limit := parseLimit v }
+/-- a value parser's outcome through `reject_invalid(...)?` (`lib.rs:412-421`, commit 82aef8c): a panic is a
+    panic; `compile_error!` tokens (the only token strings of a value parser that start with `compile_error`)
+    are returned as `Err` IMMEDIATELY; `None` / `Some(..)` tokens are stored -/
+def liftValue {α : Type} (r : Except String (Spliced α)) (f : Spliced α → Parsed) : Result :=
+  match r with
+  | .error m => .error (.panics m)
+  | .ok (.compileError e) => .error (.parserErr e.msg)
+  | .ok (.ok v) => .ok (f (.ok v))
+
+/-- one iteration of the `for nv in parsed_args` loop of `parse_sync_attributes` (`lib.rs:530-599`) /
+    `parse_async_attributes` (`lib.rs:477-513`), `parse_common_attribute` (`lib.rs:425-463`) inlined.
+    Every recognised attribute OVERWRITES its field (so a later occurrence wins); `Err` — including an
+    invalid `limit` / `ttl` / `max_memory` / `frequency_weight` value — and panics abort at once. -/
+def stepAttr (k : Kind) (st : Parsed) (n : String) (v : AttrVal) : Result :=
+  if n = "limit" then liftValue (.ok (parseLimit v)) (fun x => { st with limit := x })
   else if n = "policy" then liftErr (parsePolicy v) (fun s => { st with policy := s })
-  else if n = "ttl" then liftPanic (parseTtl v) (fun t => { st with ttl := t })
+  else if n = "ttl" then liftValue (parseTtl v) (fun t => { st with ttl := t })
   else if n = "scope" ∧ k = .sync then liftErr (parseScope v) (fun s => { st with scope := s })
   else if n = "name" then .ok { st with name := parseName v }
-  else if n = "max_memory" then liftPanic (parseMaxMemory oc v) (fun m => { st with maxMemory := m })
+  else if n = "max_memory" then liftValue (parseMaxMemory v) (fun m => { st with maxMemory := m })
   else if n = "tags" then liftErr (parseStringArray v) (fun l => { st with tags := l })
   else if n = "events" then liftErr (parseStringArray v) (fun l => { st with events := l })
   else if n = "dependencies" then liftErr (parseStringArray v) (fun l => { st with dependencies := l })
   else if n = "invalidate_on" then liftErr (parsePathAttr msgInvalidateOn v) (fun p => { st with invalidateOn := some p })
   else if n = "cache_if" then liftErr (parsePathAttr msgCacheIf v) (fun p => { st with cacheIf := some p })
-  else if n = "frequency_weight" then liftPanic (parseFrequencyWeight v) (fun w => { st with frequencyWeight := w })
+  else if n = "frequency_weight" then liftValue (parseFrequencyWeight v) (fun w => { st with frequencyWeight := w })
   else .error (.parserErr (msgUnknown k n))
 
-def parseLoop (k : Kind) (oc : Bool) : Parsed → AttrList → Result
+def parseLoop (k : Kind) : Parsed → AttrList → Result
   | st, [] => .ok st
   | st, (n, v) :: rest =>
-    match stepAttr k oc st n v with
-    | .ok st' => parseLoop k oc st' rest
+    match stepAttr k st n v with
+    | .ok st' => parseLoop k st' rest
     | .error e => .error e
 
-def parse (k : Kind) (oc : Bool) (l : AttrList) : Result := parseLoop k oc Parsed.default l
+def parse (k : Kind) (l : AttrList) : Result := parseLoop k Parsed.default l
 
 /-- `parse_sync_attributes` -/
-def parseSync (oc : Bool) (l : AttrList) : Result := parse .sync oc l
+def parseSync (l : AttrList) : Result := parse .sync l
 /-- `parse_async_attributes` -/
-def parseAsync (oc : Bool) (l : AttrList) : Result := parse .async oc l
+def parseAsync (l : AttrList) : Result := parse .async l
 
 /-! ### What the macros do with the parsed values -/
 
@@ -650,8 +661,15 @@ def badMaxMemory : AttrVal → Bool
   | .intLit neg v _ => neg || usizeBound ≤ v
   | _ => true
 
+/-- `frequency_weight` values outside everything the parser is known to tolerate (it tolerates every
+    non-negative integer literal below `2^64`, `0` included) -/
+def badFrequencyWeight : AttrVal → Bool
+  | .floatLit neg m e _ => neg || (match roundDec m e with | .finite _ => false | _ => true)
+  | .intLit neg v _ => neg || 2 ^ 64 ≤ v
+  | _ => true
+
 /-- an attribute the property says must not be silently accepted: unknown name, or an invalid
-    `policy` / `scope` / `limit` / `ttl` / `max_memory` value -/
+    `policy` / `scope` / `limit` / `ttl` / `max_memory` (/ `frequency_weight`) value -/
 def mustRejectAttr (k : Kind) (n : String) (v : AttrVal) : Bool :=
   if !(knownNames k).contains n then true
   else if n = "limit" then !validLimit v
@@ -659,6 +677,55 @@ def mustRejectAttr (k : Kind) (n : String) (v : AttrVal) : Bool :=
   else if n = "ttl" then !validTtl v
   else if n = "scope" then !validScope v
   else if n = "max_memory" then badMaxMemory v
+  else if n = "frequency_weight" then badFrequencyWeight v
   else false
+
+/-! ### Legacy: the parser BEFORE commits 82aef8c / 1b1b026 (regression witnesses only)
+
+The value parsers' `compile_error!` tokens were STORED in the field and the loop carried on, so a later
+occurrence of the same attribute overwrote them; and the `max_memory` product was a plain `n * 1024 * …`
+that panicked with overflow checks (`oc = true`) and wrapped without. -/
+
+namespace Legacy
+
+def mulUnit (oc : Bool) (n k : Nat) : Except String Nat :=
+  if n * 1024 ^ k < usizeBound then .ok (n * 1024 ^ k)
+  else if oc then .error "attempt to multiply with overflow"
+  else .ok (n * 1024 ^ k % usizeBound)
+
+def mmWithUnit (oc : Bool) (u : List Char) (a : Char) (k : Nat) : Except String (Spliced Nat) :=
+  match parseUsize (trimEndMatches2 a 'B' u) with
+  | some n => (mulUnit oc n k).map (fun b => .ok (some b))
+  | none => .ok (.compileError .mmNumber)
+
+def parseMaxMemoryUpper (oc : Bool) (u : List Char) : Except String (Spliced Nat) :=
+  if endsWith2 'G' 'B' u then mmWithUnit oc u 'G' 3
+  else if endsWith2 'M' 'B' u then mmWithUnit oc u 'M' 2
+  else if endsWith2 'K' 'B' u then mmWithUnit oc u 'K' 1
+  else match parseUsize u with
+    | some n => .ok (.ok (some n))
+    | none => .ok (.compileError .mmFormat)
+
+def parseMaxMemory (oc : Bool) : AttrVal → Except String (Spliced Nat)
+  | .strLit s => parseMaxMemoryUpper oc (s.toList.map Char.toUpper)
+  | v => Attrs.parseMaxMemory v
+
+def stepAttr (k : Kind) (oc : Bool) (st : Parsed) (n : String) (v : AttrVal) : Result :=
+  if n = "limit" then .ok { st with limit := parseLimit v }
+  else if n = "ttl" then liftPanic (parseTtl v) (fun t => { st with ttl := t })
+  else if n = "max_memory" then liftPanic (parseMaxMemory oc v) (fun m => { st with maxMemory := m })
+  else if n = "frequency_weight" then liftPanic (parseFrequencyWeight v) (fun w => { st with frequencyWeight := w })
+  else Attrs.stepAttr k st n v
+
+def parseLoop (k : Kind) (oc : Bool) : Parsed → AttrList → Result
+  | st, [] => .ok st
+  | st, (n, v) :: rest =>
+    match stepAttr k oc st n v with
+    | .ok st' => parseLoop k oc st' rest
+    | .error e => .error e
+
+def parse (k : Kind) (oc : Bool) (l : AttrList) : Result := parseLoop k oc Parsed.default l
+
+end Legacy
 
 end Cachelito.Attrs
